@@ -124,7 +124,7 @@ var c08EncExprs = []string{
 	// result is a new value, the operands - and the anchored map they merge or stand for - read as before
 	".m * {\"c\": 9}", ".m *? {\"c\": 9}", ".m *n {\"c\": 9}", ".m *+ {\"c\": [9]}", ".m *d {\"c\": 9}", ".m *?+ {\"i\": 9}", ".m *?d {\"j\": 9}", ".m *?c {\"c\": 9}",
 	"{\"c\": 9} *? .m", ".m *? {\"c\": {\"z\": 1}}", ".m *? {\"i\": [1]}", ".b *? {\"c\": 9}", ".b *n {\"zz\": 9}", ".m *n {\"zz\": {\"y\": 1}}", ".m * .b", ".b * .m", ".m *? .m",
-	".m + {\"c\": 9}", ".m | with_entries(.)", ".m | pick([\"c\"])", ".m | omit([\"d\"])", ".m | sort_keys(.)", ".m | to_entries | from_entries", ".m | map_values(. + 1)",
+	".m + {\"c\": 9}", ".m | with_entries(.)", ".m | pick([\"c\"])", ".m | omit([\"d\"])", ".m | sort_keys(.)", ".m | to_entries | from_entries",
 }
 
 // expressions whose evaluation hands the scalars to the yaml.v3 emitter or to a regexp replacement run on concrete
